@@ -1,8 +1,9 @@
 CONSTANTS Bases <- BasesAB  Filters <- FiltersPT  Paths <- PathsXY
-  MaxFl = 2  MaxHandles = 4  MaxOps = 5  KeyIncludesFilters = TRUE
+  MaxFl = 2  MaxHandles = 4  MaxColls = 2  MaxOps = 5  KeyIncludesFilters = TRUE
 SPECIFICATION Spec
 VIEW NoHist
 INVARIANT ConfigTellsTheTruth
 INVARIANT FilesTellTheTruth
+INVARIANT CollectionsTellTheTruth
 INVARIANT NoMismatch
 CHECK_DEADLOCK FALSE
